@@ -35,6 +35,7 @@ type Prog struct {
 // in-memory overlay and builds SSA. Any type error is fatal: the analysis cannot vouch for a program it
 // cannot resolve.
 func Load(repo string, overlay map[string][]byte, withTests bool, tags string) (*Prog, error) {
+	resetThreadCache()
 	env := append(os.Environ(), "GOFLAGS=-mod=mod", "GOPROXY=off", "GOSUMDB=off", "GOTOOLCHAIN=local", "GOWORK=off")
 	cfg := &packages.Config{
 		Mode:    packages.LoadAllSyntax,
